@@ -382,16 +382,42 @@ pub fn run(ctx: &Ctx) -> Outcome {
             Some((class, why)) => ctx.violation(class, format!("[e2e-pieces-over-2MiB-1seeder] {}", &why[..why.len().min(500)]), json!({"scenario": "e2e-pieces-over-2MiB-1seeder", "history": []})),
         }
     }
+    // a storage fault: in a subprocess that may not write files longer than 20 000 bytes, storing a
+    // 40 000-byte piece fails part-way; whatever is left behind must not count as stored
+    {
+        let exe = std::env::current_exe().expect("current_exe");
+        match std::process::Command::new(&exe).args(["--probe", "fsfault"]).stdout(std::process::Stdio::null()).output() {
+            Ok(o) if o.status.code() == Some(0) => per.push(json!({"scenario": "fsfault-40000+100-1seeder (write limit 20000 bytes)", "held": true})),
+            Ok(o) if o.status.code() == Some(3) => {
+                let line = String::from_utf8_lossy(&o.stderr).lines().last().unwrap_or("").to_string();
+                let (class, why) = line.split_once(' ').unwrap_or(("storage-fault", ""));
+                let class: &'static str = match class {
+                    "piece-counted-as-done-without-stored-data" => "piece-counted-as-done-without-stored-data",
+                    "stored-piece-file-does-not-hash-to-its-name" => "stored-piece-file-does-not-hash-to-its-name",
+                    "owned-piece-forgotten" => "owned-piece-forgotten",
+                    _ => "storage-fault-mishandled",
+                };
+                ctx.violation(class, format!("[write limit 20000 bytes] {}", &why[..why.len().min(400)]), json!({"scenario": "fsfault", "history": []}));
+            }
+            other => ctx.machinery_error(format!("fsfault subprocess failed: {:?}", other.map(|o| (o.status, String::from_utf8_lossy(&o.stderr).chars().take(300).collect::<String>())))),
+        }
+    }
     let mut o = Outcome::new("model_checking");
     explore::stats_outcome(&total, &mut o);
     o.set("scenarios", Value::Array(per));
-    o.set("rule", json!("torrent: piece 0 = 16387 B (blocks 16384 + 3), piece 1 = 5 B; adversarial peer k (after handshake + full bitfield): N unchoke, Go/Gn correct answer to the oldest/newest outstanding request, Xo/Xn same coordinates with one payload bit flipped, Wi other piece index, Wb begin+1, Wl/WL one byte short/long, D duplicate of the last accepted block, U block at an offset never requested, C choke, Z close, R reset, L release of a held-back broadcast; observer (incoming): So joins at any point (handshake + empty bitfield + interested in one read; the bitfield it is sent is checked), then Q0/Q1 requests the first block of piece 0/1; -stale scenarios start with zero-filled files of the right length under the names of the listed pieces (they are not data the client stored; a piece counts as stored only when its file holds verified content); histories with at most `dev` non-honest events (N, G*, L are honest); every tie-break of the chooser enumerated. Plus two full-session scenarios borrowed from C02 (storage-*): a host re-listed by the tracker under a new peer id while its old connection is live, and two seeders with held-back broadcasts; there only 'Have implies a stored verified piece' and 'owned stays owned' are evaluated. Plus one honest download of two pieces of 2 MiB + 16 KiB + 5 bytes (larger than tokio's 2 MiB file-write chunk) with the same invariants after every event."));
+    o.set("rule", json!("torrent: piece 0 = 16387 B (blocks 16384 + 3), piece 1 = 5 B; adversarial peer k (after handshake + full bitfield): N unchoke, Go/Gn correct answer to the oldest/newest outstanding request, Xo/Xn same coordinates with one payload bit flipped, Wi other piece index, Wb begin+1, Wl/WL one byte short/long, D duplicate of the last accepted block, U block at an offset never requested, C choke, Z close, R reset, L release of a held-back broadcast; observer (incoming): So joins at any point (handshake + empty bitfield + interested in one read; the bitfield it is sent is checked), then Q0/Q1 requests the first block of piece 0/1; -stale scenarios start with zero-filled files of the right length under the names of the listed pieces (they are not data the client stored; a piece counts as stored only when its file holds verified content); histories with at most `dev` non-honest events (N, G*, L are honest); every tie-break of the chooser enumerated. Plus two full-session scenarios borrowed from C02 (storage-*): a host re-listed by the tracker under a new peer id while its old connection is live, and two seeders with held-back broadcasts; there only 'Have implies a stored verified piece' and 'owned stays owned' are evaluated. Plus one honest download of two pieces of 2 MiB + 16 KiB + 5 bytes (larger than tokio's 2 MiB file-write chunk) with the same invariants after every event. Plus a storage fault: in a subprocess whose file size limit is 20 000 bytes (RLIMIT_FSIZE) an honest seeder delivers a 40 000-byte piece, so the write fails part-way; over 60 fair events nothing may be counted as stored that is not, and every *.piece file must hash to its name."));
     o.assume("payload bytes enter the state key only as per-block tags {empty, correct, corrupt}: no code path inspects payload other than through SHA-1 of the whole piece");
     o
 }
 
 pub fn replay(_ctx: &Ctx, r: &Value) -> i32 {
     let name = r["scenario"].as_str().unwrap();
+    if name == "fsfault" {
+        let exe = std::env::current_exe().expect("current_exe");
+        let out = std::process::Command::new(&exe).args(["--probe", "fsfault"]).stdout(std::process::Stdio::null()).output().expect("subprocess");
+        println!("fsfault subprocess: exit {:?}: {}", out.status.code(), String::from_utf8_lossy(&out.stderr));
+        return if out.status.code() == Some(0) { 0 } else { 1 };
+    }
     if name == "e2e-pieces-over-2MiB-1seeder" {
         let dir = core::private_cwd("c01", "replay");
         return match crate::c02::big_piece_run(&dir) {
